@@ -211,6 +211,19 @@ ChildResult run_in_child(const std::function<bytes()> &fn, int timeout_s)
   {
     r.status = CH_EXIT;
     r.code = ec;
+    // ThreadSanitizer builds (log_path=tsanlog, halt_on_error): the report of the child, if it made one
+    char lp[64];
+    snprintf(lp, sizeof lp, "tsanlog.%d", (int)pid);
+    if (FILE *lf = fopen(lp, "rb"))
+    {
+      char cb[4096];
+      size_t k;
+      while ((k = fread(cb, 1, sizeof cb, lf)) > 0 && r.detail.size() < (1u << 20))
+        r.detail.append(cb, k);
+      fclose(lf);
+      unlink(lp);
+      r.code = 97;
+    }
     return r;
   }
   r.payload.assign(data.begin() + 1, data.end());
